@@ -29,6 +29,11 @@ def body(c):
             for cc in (True, False):
                 for incl in ("base", "all", "none"):   # dump query without / with includeDeprecated: true on fields, args, inputFields, enumValues
                     cases.append({"id": 0, "flavour": "static", "flags": [a, b, cc], "incl": incl, "ts": {}, "dts": {}})
+    # second static schema (field / argument predicates only, no type-level predicate), introspected on ONE schema
+    # instance in a sequence of contexts that goes back and forth (anything remembered from an earlier request shows)
+    vis2 = json.load(open(os.path.join(vlib.ROOT, "schemas", "vis2.json")))
+    for k, fl in enumerate([(True, True), (False, False), (True, True), (False, True), (True, False), (False, False), (True, True)]):
+        cases.append({"id": 0, "flavour": "static2", "flags": [fl[0], fl[1], True], "incl": ("base", "all", "none")[k % 3], "ts": vis2, "dts": {}})
     nts = 60 if c.quick else 1500
     for k in range(nts):
         r = random.Random(c.seed * 104729 + k)
@@ -50,7 +55,7 @@ def body(c):
         raise vlib.ToolError("V produced %d verdicts for %d cases" % (len(verdicts), len(obs)))
     for o in obs:
         c.count_case({"f": o["flavour"], "flags": o["flags"], "incl": o["incl"], "ts": vlib.chash(o["ts"])}, nontrivial=True)
-        slim = {"flavour": o["flavour"], "flags": o["flags"], "includeDeprecated": o["incl"], "ts": o["ts"] if o["flavour"] == "dynamic" else "schemas/vis.json",
+        slim = {"flavour": o["flavour"], "flags": o["flags"], "includeDeprecated": o["incl"], "ts": o["ts"] if o["flavour"] == "dynamic" else ("schemas/vis.json" if o["flavour"] == "static" else "schemas/vis2.json"),
                 "dump_types": [[t["name"], t["kind"], [f["name"] for f in t["fields"]], t["interfaces"], t["possibleTypes"], t["enumValues"]]
                                for t in o["obs"]["dump"]["types"] if not t["name"].startswith("__")], "problem": o["problem"]}
         c.verdict(verdicts[o["id"]], slim, "introspection: " + str(verdicts[o["id"]]))
@@ -58,13 +63,13 @@ def body(c):
     c.cov["exhaustive"] = False
     c.cov["visibility_contexts"] = 8
     c.cov["rule"] = ("static schema (interface inheritance Super > Node > objects) with visibility predicates on 2 object types, 1 interface, 3 fields, 1 argument, 1 input field, 1 enum value "
-                     "under all 8 flag contexts (exhaustive), each dumped with includeDeprecated: true on fields/enumValues only, on args/inputFields too, and nowhere + %d seeded random dynamic type systems (2-6 objects, interface inheritance, unions, "
+                     "under all 8 flag contexts (exhaustive), each dumped with includeDeprecated: true on fields/enumValues only, on args/inputFields too, and nowhere + a second static schema whose only predicates sit on a field and an argument, introspected on one schema instance in a back-and-forth sequence of 7 contexts + %d seeded random dynamic type systems (2-6 objects, interface inheritance, unions, "
                      "enum, custom scalar); every case is non-trivial; distinct by (flavour, flags, type system)" % nts)
     for o in obs[:1] + obs[-1:]:
         c.sample({"flavour": o["flavour"], "flags": o["flags"], "types": [t["name"] for t in o["obs"]["dump"]["types"] if not t["name"].startswith("__")],
                   "verdict": verdicts[o["id"]]})
     c.assumptions += ["dynamic schemas have no visibility predicates (none exist in src/dynamic), so contexts are enumerated for the static schema only",
-                      "directive definitions and deprecation flags of the dump are not judged", "schemas/vis.json mirrors the schema in harness/vh/src/bin/c18.rs"]
+                      "directive definitions and deprecation flags of the dump are not judged", "schemas/vis.json and schemas/vis2.json mirror the two derive-built schemas in harness/vh/src/bin/c18.rs"]
 
 
 vlib.main("C18", "exploration", body)
